@@ -71,6 +71,10 @@ class Script:
         self.policy = policy
         self._first_trigger = None
         self._cur_trigger = None
+        self._value_count = 0
+        self.special = None
+        self.special_positions = 4
+        self.special_used = False
         self.taken = []
         self.custom = None  # optional hook(script, idx, info) -> ("send", ev) | ("raise",) | None, overrides draws
 
@@ -213,6 +217,18 @@ class Script:
                 return None
             return ctx.sym_int(f"v:{label}", -3, 3)
         if self.values == "int":
+            return ctx.sym_int(f"v:{label}", -3, 3)
+        if self.values == "special":
+            # one solver-chosen invocation returns a value of a solver-chosen awkward kind, all others symbolic ints
+            k = self._value_count
+            self._value_count += 1
+            if self.special is None:
+                pos = ctx.choose(self.special_positions + 1, "special.pos")
+                kind = ctx.choose(6, "special.kind") if pos < self.special_positions else 0
+                self.special = (pos, kind)
+            if k == self.special[0]:
+                self.special_used = True
+                return [None, [], [ctx.sym_int(f"v:{label}", 0, 1)], (), {}, ""][self.special[1]]
             return ctx.sym_int(f"v:{label}", -3, 3)
         if self.values == "kinds":
             k = ctx.choose(7, f"vk:{label}")
